@@ -1281,7 +1281,7 @@ def split_fit_generated(d, ctx):
 def _trainer_kwargs(d, kind, D):
     kw = {}
     if kind in ('watson', 'cwmm'):
-        mc = d.choice([None, 500, 100, 20, 5])
+        mc = d.choice([None, 500, 100, 20, 5, 1000])
         if mc:
             kw['max_concentration'] = mc
         sm = d.choice([None, None, 1000, 300, 50, 2000])
